@@ -979,9 +979,11 @@ func TestProsumer(t *testing.T) {
 		}
 		var steps []step
 		subscribed := map[int]bool{}
+		idles := 0
+		pollTimeout := rapid.SampledFrom([]time.Duration{8 * time.Millisecond, 50 * time.Millisecond}).Draw(rt, "pollTimeout")
 		for k := rapid.IntRange(2, 10).Draw(rt, "nsteps"); k > 0; k-- {
 			tp := rapid.IntRange(0, ntopics-1).Draw(rt, "topic")
-			switch rapid.IntRange(0, 3).Draw(rt, "kind") {
+			switch rapid.IntRange(0, 4).Draw(rt, "kind") {
 			case 0:
 				if !subscribed[tp] {
 					subscribed[tp] = true
@@ -989,17 +991,23 @@ func TestProsumer(t *testing.T) {
 				}
 			case 1:
 				steps = append(steps, step{"wait", 0, rapid.IntRange(1, 5).Draw(rt, "ms")})
+			case 4:
+				// long enough for the consumer's pending poll to time out at the broker (and be renewed)
+				if len(subscribed) > 0 {
+					steps = append(steps, step{"idle", 0, 0})
+					idles++
+				}
 			default:
 				steps = append(steps, step{"pub", tp, rapid.IntRange(1, 6).Draw(rt, "n")})
 			}
 		}
 		greet := rapid.Bool().Draw(rt, "greet")
 		slowGreet := greet && rapid.Bool().Draw(rt, "slowGreet")
-		canon := fmt.Sprintf("prosumer topics=%d greet=%v slowGreet=%v steps=%v", ntopics, greet, slowGreet, steps)
+		canon := fmt.Sprintf("prosumer topics=%d greet=%v slowGreet=%v pollTimeout=%v steps=%v", ntopics, greet, slowGreet, pollTimeout, steps)
 		ev.S.Begin("prosumer", canon)
 		addr := fmt.Sprintf("c19p-%d", atomic.AddInt64(&rigSeq, 1))
 		broker := push.NewBroker(core.NewService())
-		broker.Timeout = 50 * time.Millisecond
+		broker.Timeout = pollTimeout
 		broker.HeartBeat = 0
 		var mu sync.Mutex
 		accepted := map[string][]string{}
@@ -1056,6 +1064,8 @@ func TestProsumer(t *testing.T) {
 				}
 			case "wait":
 				time.Sleep(time.Duration(st.N) * time.Millisecond)
+			case "idle":
+				time.Sleep(pollTimeout*5/2 + 2*time.Millisecond)
 			}
 			if problem != "" {
 				break
@@ -1102,7 +1112,7 @@ func TestProsumer(t *testing.T) {
 			cons.Unsubscribe(fmt.Sprintf("t%d", tp))
 		}
 		client.Abort()
-		ev.S.Case("prosumer", canon, nacc > 0 && len(subscribed) > 0, fmt.Sprintf("prosumer-greet=%v", greet), fmt.Sprintf("prosumer-topics=%d", len(subscribed)))
+		ev.S.Case("prosumer", canon, nacc > 0 && len(subscribed) > 0, fmt.Sprintf("prosumer-greet=%v", greet), fmt.Sprintf("prosumer-topics=%d", len(subscribed)), fmt.Sprintf("prosumer-poll-timed-out=%v", idles > 0))
 		if problem != "" {
 			if os.Getenv("VERIF_TRIAGE") != "" {
 				fmt.Printf("TRIAGE %s | %s\n", problem, canon)
